@@ -45,3 +45,40 @@ def run(ck):
         ck.violation({"property": "C01", "kind": "model/implementation disagree; the C01 monitors still accept every observed trace",
                       "case": worst, "broken": "correspondence Ingest.sstep / PushHandler.gstep vs writer/service"}, no_input=True)
     ic.coverage_level1(ck, res)
+    run_http(ck)
+
+
+def run_http(ck):
+    """level 2: the real HTTP handlers (doParse / doPush with retry) over real services"""
+    res = ic.run_level2(ck, "C01")
+    if res is None:
+        return
+    byid = res["byid"]
+    ck.obligation("harness executed every HTTP script (quiescence reached, parser output tabular)", not res["broken"],
+                  "%d scripts; first: %s" % (len(res["broken"]), res["broken"][0]["err"] if res["broken"] else ""))
+    ck.obligation("correspondence: model = observed (blocks as row sets, Do returns, answers) on %d HTTP scripts" % len(res["good"]),
+                  not res["mism"], "mismatching case ids: %s" % res["mism"][:10])
+    ck.obligation("C01 monitors accept every observed HTTP trace (success status only with all rows in accepted INSERTs; one answer; every push answered after a drain)",
+                  not res["v1"], "violating case ids: %s" % res["v1"][:10])
+    if res["v1"]:
+        worst = min((byid[i] for i in res["v1"]), key=lambda c: (len(c["ops"]), len(c["reqs"])))
+
+        def still_bad(c):
+            m, v1, v2, _ = ic.eval_cases2(ck, "C01_shrink2", [c])
+            return bool(v1)
+        worst = ic.shrink2(ck, worst, still_bad)
+        for r in worst.get("reqs") or []:
+            try:
+                r["body_text"] = bytes.fromhex(r["body"]).decode("utf8", "replace")
+            except ValueError:
+                pass
+        ck.violation({"property": "C01", "kind": "an HTTP push was acknowledged although no successful INSERT held all of its rows (or it was never / twice answered)",
+                      "explanation": "amon_step / one_answer_b / answered-after-drain (model/IngestSpec.v, model/IngestCases.v) reject the events observed on the real handlers: "
+                                     "see the answer events and the done events of the blocks carrying the rows of that push",
+                      "case": worst, "replay": "harness ingest --level 2 --cases <file with the case object on one line>"})
+    elif res["mism"] or res["broken"]:
+        bad = [byid[i] for i in res["mism"]] or res["broken"]
+        worst = min(bad, key=lambda c: (len(c["ops"]), len(c["reqs"])))
+        ck.violation({"property": "C01", "kind": "model/implementation disagree on an HTTP script; the C01 monitors still accept every observed trace",
+                      "case": worst, "broken": "correspondence PushHandler.gstep (doParse/doPush/retry) vs writer/controller"}, no_input=True)
+    ic.coverage_level2(ck, res)
